@@ -402,7 +402,91 @@ fn run_hint_case(c: &HintCase) -> Result<bool, String> {
     Ok(hint.map_or(false, |h| h != supplied.len()))
 }
 
+/// long inputs: n distinct elements (every position carries the only occurrence of its value), read
+/// from JSON text and from a hinted deserializer, then serialised and read back
+#[derive(Clone, Debug, Serialize, Deserialize)]
+pub struct LargeCase {
+    pub n: u32,
+    pub hmode: HMode,
+}
+
+fn run_large_case(c: &LargeCase) -> Result<(), String> {
+    set_default_hmode(c.hmode);
+    let n = c.n;
+    // a fixed permutation of 0..n (multiplication by an odd constant modulo a power of two >= n, filtered)
+    let m = (n.max(2) as u64).next_power_of_two();
+    let perm: Vec<u32> = (0..m).map(|i| (i.wrapping_mul(0x9E37_79B1) + 12345) % m).filter(|x| *x < n as u64).map(|x| x as u32).collect();
+    if perm.len() != n as usize {
+        return Err("internal: permutation".into());
+    }
+    let arr = format!("[{}]", perm.iter().map(|x| x.to_string()).collect::<Vec<_>>().join(","));
+    let s = catch_unwind(AssertUnwindSafe(|| serde_json::from_str::<US>(&arr))).map_err(|_| format!("deserialising a set of {} distinct elements panicked", n))?.map_err(|e| format!("a well-formed array of {} elements was refused: {}", n, e))?;
+    let check_set = |s: &US, what: &str| -> Result<(), String> {
+        if s.len() != n as usize {
+            return Err(format!("{}: {} distinct elements were supplied, the set holds {}", what, n, s.len()));
+        }
+        let g = s.guard();
+        if let Some(x) = (0..n).find(|x| !s.contains(x, &g)) {
+            return Err(format!("{}: element {} (position {} of {}) is missing from the set", what, x, perm.iter().position(|y| y == &x).unwrap_or(0), n));
+        }
+        Ok(())
+    };
+    check_set(&s, "set read from a JSON array")?;
+    let back: US = serde_json::from_str(&serde_json::to_string(&s).map_err(|e| e.to_string())?).map_err(|e| e.to_string())?;
+    check_set(&back, "set after a serialise / deserialise round trip")?;
+    if back != s {
+        return Err(format!("round trip of a set of {} elements gave an unequal set", n));
+    }
+    let d = Hinted { pairs: perm.iter().map(|x| (*x, *x ^ 5)).collect(), hint: Some(n as usize), pos: 0 };
+    let hs = catch_unwind(AssertUnwindSafe(|| US::deserialize(d))).map_err(|_| "deserialising a long hinted sequence panicked".to_string())?.map_err(|e| e.to_string())?;
+    check_set(&hs, "set read from a hinted sequence")?;
+    // maps
+    let obj = format!("{{{}}}", perm.iter().map(|x| format!("\"{}\":{}", x, x ^ 5)).collect::<Vec<_>>().join(","));
+    type BM = flurry::HashMap<String, u32, HB>;
+    let mm = catch_unwind(AssertUnwindSafe(|| serde_json::from_str::<BM>(&obj))).map_err(|_| format!("deserialising a map of {} entries panicked", n))?.map_err(|e| format!("a well-formed object of {} entries was refused: {}", n, e))?;
+    if mm.len() != n as usize {
+        return Err(format!("map read from a JSON object: {} distinct keys were supplied, the map holds {}", n, mm.len()));
+    }
+    {
+        let g = mm.guard();
+        if let Some(x) = (0..n).find(|x| mm.get(&x.to_string(), &g) != Some(&(x ^ 5))) {
+            return Err(format!("map read from a JSON object: key {} is missing or maps to the wrong value", x));
+        }
+    }
+    let d = Hinted { pairs: perm.iter().map(|x| (*x, *x ^ 5)).collect(), hint: Some(n as usize), pos: 0 };
+    let hm = catch_unwind(AssertUnwindSafe(|| UM::deserialize(d))).map_err(|_| "deserialising a long hinted map panicked".to_string())?.map_err(|e| e.to_string())?;
+    if hm.len() != n as usize || dump_um(&hm).iter().any(|(k, v)| *v != k ^ 5) {
+        return Err(format!("map read from a hinted deserializer: {} entries supplied, {} stored (or a wrong value)", n, hm.len()));
+    }
+    // rayon: more items than any small case, several resizes run while the pool inserts
+    let items: Vec<(u32, u32)> = perm.iter().take(60_000).map(|x| (*x, *x ^ 5)).collect();
+    let pm: UM = items.clone().into_par_iter().collect();
+    let want: BTreeMap<u32, u32> = items.iter().copied().collect();
+    if dump_um(&pm) != want {
+        return Err(format!("parallel collect of {} distinct items differs from sequential insertion", items.len()));
+    }
+    let ps: US = items.iter().map(|x| x.0).collect::<Vec<u32>>().into_par_iter().collect();
+    if ps.len() != want.len() {
+        return Err(format!("parallel collect of {} distinct elements into a set gave {}", want.len(), ps.len()));
+    }
+    Ok(())
+}
+
 fn c19_shard(ctx: &Ctx, out: &mut ShardOut) {
+    // a few long inputs, spread over the shards
+    let sizes: [u32; 16] = [131_072, 131_073, 131_074, 262_145, 262_146, 300_000, 65_537, 100_000, 200_001, 393_218, 393_219, 150_000, 70_000, 140_000, 280_000, 33_000];
+    {
+        let c = LargeCase { n: sizes[ctx.shard % 16], hmode: [HMode::Mix, HMode::Identity][ctx.shard % 2] };
+        ctx.mark_inflight("large", &serde_json::to_string(&c).unwrap());
+        out.evaluations += 1;
+        out.class("long_inputs", 1);
+        match run_large_case(&c) {
+            Ok(()) => {
+                out.nontrivial.insert(hash_str(&format!("large{}", c.n)));
+            }
+            Err(m) => out.violations.push(Viol { prop: "C19".into(), msg: format!("[C19] {}", m), replay: serde_json::json!({"sub": "large", "case": c}) }),
+        }
+    }
     drive(ctx, "hint", ctx.shard_seed(3), ctx.share(ctx.by_tier(8_000, 120_000)) as u32, hint_strategy(), out, |c| {
         let nt = run_hint_case(c).map_err(|m| CaseFail { prop: "C19".into(), msg: format!("[C19] {}", m) })?;
         Ok(CaseInfo { nontrivial: nt, classes: vec![("hinted_inputs", 1), ("hinted_inputs_whose_hint_differs_from_the_number_of_distinct_keys", nt as u64)], evaluations: 1, sub_hashes: vec![] })
@@ -432,6 +516,10 @@ fn c19_shard(ctx: &Ctx, out: &mut ShardOut) {
 fn c19_replay(sub: &str, case: &Value) -> Result<(), CaseFail> {
     let bad = |e: serde_json::Error| CaseFail { prop: "C19".into(), msg: format!("bad replay file: {}", e) };
     match sub {
+        "large" => {
+            let c: LargeCase = serde_json::from_value(case.clone()).map_err(bad)?;
+            run_large_case(&c).map_err(|m| CaseFail { prop: "C19".into(), msg: format!("[C19] {}", m) })
+        }
         "hint" => {
             let c: HintCase = serde_json::from_value(case.clone()).map_err(bad)?;
             run_hint_case(&c).map(|_| ()).map_err(|m| CaseFail { prop: "C19".into(), msg: format!("[C19] {}", m) })
@@ -451,7 +539,7 @@ pub fn defs() -> Vec<PropDef> {
     vec![PropDef {
         id: "C19",
         level: "exploration",
-        rule: "(serde) JSON objects generated from a grammar over a 10-key alphabet (empty key, escapes, multi-byte) with repetitions, ill-typed values, truncation, trailing garbage and arrays; deserialisation into HashMap<String,u32> runs under catch_unwind and must return a value or an error; a well-formed document must give exactly the supplied key set with each key mapped to one of its supplied values, serialise->deserialise (map and pinned reference, all hashers through a Default wrapper) must give an equal map, and a MapDeserializer with exact size hint the same key set; deserializers reporting generated size hints (absent, exact, number of distinct keys, 0, too small, too large, arbitrary up to 50000; eight wild hints up to usize::MAX for the set visitor) must give the sequential result without panicking; the key list as an array for sets likewise; (rayon) item multisets collected / par_extend-ed (owned map, &map, pinned reference; maps and sets) on pools of 1-8 threads must give the sequential key set with each key mapped to one of the values supplied for it; non-trivial = a well-formed document that repeats a key, or a parallel run on >= 2 threads with >= 40 items and a key supplied more than once; distinct = hash of the case",
+        rule: "(serde) JSON objects generated from a grammar over a 10-key alphabet (empty key, escapes, multi-byte) with repetitions, ill-typed values, truncation, trailing garbage and arrays; deserialisation into HashMap<String,u32> runs under catch_unwind and must return a value or an error; a well-formed document must give exactly the supplied key set with each key mapped to one of its supplied values, serialise->deserialise (map and pinned reference, all hashers through a Default wrapper) must give an equal map, and a MapDeserializer with exact size hint the same key set; deserializers reporting generated size hints (absent, exact, number of distinct keys, 0, too small, too large, arbitrary up to 50000; eight wild hints up to usize::MAX for the set visitor) must give the sequential result without panicking; sixteen long inputs (33 000 - 393 219 distinct elements, every value occurring once) through JSON text, a hinted deserializer, a round trip and a 60 000-item parallel collect; the key list as an array for sets likewise; (rayon) item multisets collected / par_extend-ed (owned map, &map, pinned reference; maps and sets) on pools of 1-8 threads must give the sequential key set with each key mapped to one of the values supplied for it; non-trivial = a well-formed document that repeats a key, or a parallel run on >= 2 threads with >= 40 items and a key supplied more than once; distinct = hash of the case",
         assumptions: &["serde_json is the only data format exercised", "rayon scheduling is not controlled: each parallel case is one sample of it"],
         run_shard: c19_shard,
         replay: c19_replay,
